@@ -109,4 +109,40 @@ def rename_locals(repo_root, suffix="_q"):
     return out
 
 
-WHOLE_REPO = {"roundtrip": roundtrip, "rename-locals": rename_locals}
+class _CondRewriter(ast.NodeTransformer):
+    """behaviour-preserving rewrites of conditions: comparisons are mirrored (a < b -> b > a, a == b -> b == a),
+    `x is None` / `x is not None` keep their form, `not`-free two-way ifs are turned round
+    (`if c: A else: B` -> `if not c: B else: A`) and conditional expressions likewise."""
+    MIRROR = {ast.Lt: ast.Gt, ast.Gt: ast.Lt, ast.LtE: ast.GtE, ast.GtE: ast.LtE, ast.Eq: ast.Eq, ast.NotEq: ast.NotEq}
+
+    def visit_Compare(self, node):
+        self.generic_visit(node)
+        if len(node.ops) == 1 and type(node.ops[0]) in self.MIRROR and not isinstance(node.comparators[0], ast.Constant):
+            return ast.Compare(left=node.comparators[0], ops=[self.MIRROR[type(node.ops[0])]()], comparators=[node.left])
+        return node
+
+    def visit_If(self, node):
+        self.generic_visit(node)
+        two_way = node.orelse and not (len(node.orelse) == 1 and isinstance(node.orelse[0], ast.If))
+        if two_way:
+            return ast.If(test=ast.UnaryOp(op=ast.Not(), operand=node.test), body=node.orelse, orelse=node.body)
+        return node
+
+    def visit_IfExp(self, node):
+        self.generic_visit(node)
+        return ast.IfExp(test=ast.UnaryOp(op=ast.Not(), operand=node.test), body=node.orelse, orelse=node.body)
+
+
+def rewrite_conditions(repo_root):
+    out = {}
+    for rel, src in package_sources(repo_root).items():
+        tree = _CondRewriter().visit(ast.parse(src))
+        ast.fix_missing_locations(tree)
+        new = ast.unparse(tree)
+        compile(new, rel, "exec")
+        out[rel] = new
+    return out
+
+
+WHOLE_REPO = {"roundtrip": roundtrip, "rename-locals": rename_locals, "rewrite-conditions": rewrite_conditions}
+EXTRA = {}
